@@ -92,9 +92,10 @@ def cases(seed, tier):
         "script": [{"do": "install_suspender", "sus": "s0"}, {"do": "call", "plan": body, "main": True, "det_of": {str(k): v for k, v in det_of.items()}}],
     }
     case["script"].append({"do": "call", "plan": [msg(S, "null")], "tag": "followup-null"})
+    retarget = generic.second_suspender(case, ID, seed)
     dry, dv, n = generic.dry_run(case)
     yield case
-    ci = 1
+    ci = generic.main_index(case)
     K = 12 if tier == "quick" else 24
     for j in range(K):
         c = copy.deepcopy(case)
@@ -102,7 +103,7 @@ def cases(seed, tier):
         inj = gen.gen_injections(rng, n, kinds=["pause", "pause", "trip", "abort", "stop", "halt"], k=rng.choice([1, 1, 2]), slack=3)
         for i in inj:
             if i["do"] == "trip":
-                i["args"] = generic.trip_args(rng)
+                i["args"] = retarget(generic.trip_args(rng))
         c["script"][ci]["inject"] = inj
         c["script"][ci]["decisions"] = [{"do": rng.choice(["resume", "resume", "resume", "abort"])} for _ in range(4)]
         yield c
@@ -116,7 +117,7 @@ def cases(seed, tier):
         c["callbacks"] = {"cbY": {}, "cbX": {"raise_at": {"start": [rng.randrange(nkeys)]}}}
         c["script"] = [{"do": "subscribe", "cb": "cbY", "name": "all", "token": "y0"}, {"do": "subscribe", "cb": "cbX", "name": "all", "token": "x0"}] + c["script"]
         if j == 1:
-            plan = c["script"][3]["plan"]
+            plan = c["script"][generic.main_index(c)]["plan"]
             for i in range(nkeys):
                 plan[i] = {"op": "try", "site": S(), "body": [plan[i]], "handlers": [{"exc": "Exception", "body": [msg(S, "null")], "reraise": False}]}
         yield c
